@@ -966,6 +966,175 @@ def r038(P, rep):
         rep.undecided('R03.8', 'parse.c:compound_stmt:items', 'no returning path parses a block item', where=where)
 
 
+# ------------------------------------------------- single evaluation of operands in parser lowerings ---
+# lowerings that must exist (anchors); the rule itself runs over every function of parse.c that returns a Node * and is not a plain constructor
+LOWERINGS = ('conditional', 'logor', 'logand', 'expr', 'assign', 'to_assign', 'new_inc_dec', 'unary', 'cast', 'postfix')
+BOOKKEEPING_LINKS = ('case_next', 'default_case', 'goto_next')     # lists the parser keeps through nodes; the code generator does not evaluate along them
+PURE_LEAVES = ('ND_VAR', 'ND_NUM', 'ND_NULL_EXPR')                  # node kinds without sub-expression and without side effect: evaluating one twice cannot be observed
+
+
+def _returns_node(fd):
+    return (fd.type or '').split('(')[0].strip() == 'Node *'
+
+
+def _plain_constructors(pu):
+    """functions returning Node * that only allocate and fill a node (their callees are calloc and other plain constructors)"""
+    cal = {}
+    for f, fd in pu.functions.items():
+        if _returns_node(fd):
+            cal[f] = set(c.callee() for c in fd.find('CallExpr'))
+    plain = set()
+    changed = True
+    while changed:
+        changed = False
+        for f, cs in cal.items():
+            if f not in plain and None not in cs and cs and all(c == 'calloc' or c in plain for c in cs):
+                plain.add(f); changed = True
+    return plain
+
+
+def lowering_paths(P, pu, fname, plain, max_paths=3000):
+    """explore one lowering: plain constructors are interpreted (so the built tree exists), every other callee is opaque and, when it returns a Node *, is
+    taken to link each Node argument it is given once into its result. Yields (ctx, result, consumed: id(result Obj) -> [Node args], it)"""
+    from ..lib_parse import TokenModel
+    from ..interp import _Ref, VarPlace
+    fd = pu.fn(fname)
+    called = set()
+    todo = [fname]
+    while todo:
+        g = todo.pop()
+        for c in pu.fn(g).find('CallExpr'):
+            n = c.callee()
+            if n and n not in called:
+                called.add(n)
+                if n in plain:
+                    todo.append(n)
+    opq = sorted(c for c in called if c not in plain and c not in ('equal', 'consume', 'skip', 'calloc') and c != 'error' and not c.startswith('error_'))
+    tm = TokenModel(P, pu, [fname], extra_opaque=opq, globals_={'scope': lambda ctx: Obj('Scope', lazy=True, label='scope')}, loop_limit=1, forever_limit=3)
+    it = tm.interp()
+    ps = pu.params(fname)
+
+    def mk(ctx):
+        a = []
+        for q in ps:
+            t = (q.type or '').replace(' ', '')
+            if t == 'Token**':
+                a.append(_Ref(VarPlace({'rest': None}, 'rest')))
+            elif t == 'Token*':
+                a.append(tm.token(q.name or 'tok'))
+            elif t == 'Node*':
+                a.append(Obj('Node', lazy=True, label=q.name or 'node'))
+            elif t in ('int', 'long', 'bool'):
+                a.append(Sym(q.name or 'n', t))
+            else:
+                a.append(it.lazy_value(q.type, q.name or 'arg'))
+        return a
+    node_fns = set(f for f, d in pu.functions.items() if _returns_node(d))
+    out = []
+    for ctx, o in it.explore(fname, mk, max_paths=max_paths):
+        if o[0] != 'ret':
+            continue
+        it.ctx = ctx
+        consumed = {}
+        for e in ctx.events:
+            if e[0] == 'call' and e[1] in node_fns:
+                r = _node_obj(it, e[4])
+                if r is not None:
+                    consumed[id(r)] = [a for a in (_node_obj(it, x) for x in (e[2] or [])) if a is not None]
+        out.append((ctx, o[1], consumed))
+    return it, out
+
+
+def _node_obj(it, v):
+    """the node object a value points to (None: not a node / null)"""
+    if isinstance(v, View):
+        w = it.settle(v)
+        if isinstance(w, View):
+            objs = [c for c in w.cell.cands if isinstance(c, Obj)]
+            w = objs[0] if len(objs) == 1 else None
+        v = w
+    if isinstance(v, Obj) and v.tname in ('Node', None):
+        return v
+    return None
+
+
+def _operand_links(it, root, consumed, NK):
+    """number of distinct evaluation paths from the root of a built tree to every operand (a node the lowering did not build itself)"""
+    count = {}
+    names = {}
+    kinds = {}
+    budget = [20000]
+
+    def kind_of(o):
+        k = o.fields.get('kind')
+        if isinstance(k, View):
+            ks = set(NK.get(k.proj(c), '?') for c in k.cell.cands)
+            return ks
+        return {NK.get(k, '?')} if isinstance(k, int) else None
+
+    def walk(o, stack):
+        budget[0] -= 1
+        if budget[0] < 0 or id(o) in stack:
+            return
+        stack = stack | {id(o)}
+        if o.lazy:
+            count[id(o)] = count.get(id(o), 0) + 1
+            names[id(o)] = o.label or '?'
+            kinds[id(o)] = kind_of(o)
+            for a in consumed.get(id(o), ()):
+                walk(a, stack)
+        for f, v in list(o.fields.items()):
+            if f in BOOKKEEPING_LINKS:
+                continue
+            c = _node_obj(it, v)
+            if c is not None and (c.tname == 'Node' or not c.lazy):
+                walk(c, stack)
+    r = _node_obj(it, root)
+    if r is not None:
+        walk(r, frozenset())
+    return count, names, kinds, budget[0] < 0
+
+
+def r03a(P, rep):
+    rep.rule('R03.10', 'single evaluation: the tree a parser lowering (a ?: b, op=, ++/--, &&, ||, the comma operator, ...) returns links every operand tree it got from a sub-parser or as an argument '
+                       'at most once, because the code generator evaluates a sub-tree once per link: an operand that is reachable twice is evaluated twice, side effects included '
+                       '(C11 6.5.15/6.5.16.2/6.5.2.4: the operand is evaluated only once); only a leaf without side effect (a variable, a constant) may be shared', floor=25)
+    pu = P.unit('parse.c')
+    NK = {v: k for k, v in pu.enums.items() if k.startswith('ND_')}
+    plain = _plain_constructors(pu)
+    if not plain:
+        raise AnalysisBroken('parse.c: no node constructor recognised')
+    import re as _re
+    for fname in LOWERINGS:
+        if fname not in pu.functions:
+            raise AnalysisBroken('parse.c: %s vanished' % fname)
+    for fname in sorted(f for f, d in pu.functions.items() if _returns_node(d) and f not in plain and d.find('CompoundStmt')):
+        where = 'parse.c:%d' % pu.fn(fname).line
+        try:
+            it, paths = lowering_paths(P, pu, fname, plain)
+        except AnalysisBroken as e:
+            rep.undecided('R03.10', 'parse.c:%s:tree' % fname, 'the lowering is not interpretable: %s' % e, where=where)
+            continue
+        n = 0
+        for ctx, root, consumed in paths:
+            it.ctx = ctx
+            count, names, kinds, cut = _operand_links(it, root, consumed, NK)
+            if cut:
+                rep.undecided('R03.10', 'parse.c:%s:tree' % fname, 'the built tree is too large to walk', where=where)
+                continue
+            n += 1
+            shared = [i for i, c in count.items() if c > 1 and not (kinds.get(i) and kinds[i] <= set(PURE_LEAVES))]
+            what = sorted(set(_re.sub(r'#\d+', '', names[i]) for i in shared))
+            rep.ob('R03.10', 'parse.c:%s:operands-linked-once' % fname, not shared,
+                   '%s() returns a tree in which the operand %s is reachable along %d links%s: the code generator evaluates it once per link, so its side effects (`*p++`, `a[++i]`, a call) happen more than once '
+                   'and the value used is that of the last evaluation; an operand that is needed twice must go through a temporary'
+                   % (fname, ', '.join(what), max([count[i] for i in shared] or [0]),
+                      (' (node kind on this path: %s)' % '/'.join(sorted(set().union(*[kinds[i] or {'any'} for i in shared])))) if shared else ''),
+                   where=where, facts={'path': ctx.trail[-8:]})
+        if n == 0:
+            rep.undecided('R03.10', 'parse.c:%s:tree' % fname, 'no returning path builds a tree', where=where)
+
+
 def r036(P, rep):
     rep.rule('R03.6', 'labels are resolved per function: every goto gets the unique label of the label with the same name, an unmatched goto is diagnosed, and both lists are cleared afterwards; fresh label names never repeat', floor=4)
     pu = P.unit('parse.c')
@@ -1032,4 +1201,5 @@ def run(P, rep, tier):
     r031(P, rep, cg.cat)
     r035(P, rep)
     r038(P, rep)
+    r03a(P, rep)
     r036(P, rep)
